@@ -171,7 +171,8 @@ def oracle(c, ctx):
             if r.GetQuantity() != q.GetQuantity():
                 return _fail("a//b has the quantity of a/b", c, got=repr(r), quotient=repr(q))
             fl = math.floor(q.value)
-            if r.value != fl and not (abs(q.value - round(q.value)) <= 1e-9 * max(1.0, abs(q.value)) and abs(r.value - fl) <= 1):
+            slack = 1e-9 * max(1.0, abs(q.value))  # float rounding of the quotient; beyond 2**53 every float is integral
+            if r.value != fl and not (abs(q.value - round(q.value)) <= slack and abs(r.value - fl) <= 1 + slack):
                 return _fail("a//b is the floor of a/b", c, got=r.value, quotient=q.value)
             return None
         if want_m is not None and math.isfinite(want_m):
